@@ -47,6 +47,7 @@ class StoreRecorder(object):
         self.klepto = common.import_klepto()
         A = self.klepto._archives
         self.backend = backend
+        self.workdir = workdir if backend.startswith(('file', 'dir')) and not backend.endswith('-py') else None
         self.handles = []     # per archive id: (primary handle bound to the cache, second handle for direct writes)
         for x in range(1, NA + 1):
             self.handles.append(self._make(A, backend, workdir, x))
@@ -119,6 +120,23 @@ class StoreRecorder(object):
             if not isinstance(bound, self.klepto._archives.null_archive):
                 cur = 9          # bound to something that is neither null nor one of ours
         return {'mem': mem, 'archs': archs, 'cur': cur, 'nullsize': nullsize}
+
+    def freeze_times(self):
+        """every regular file of the archives gets one fixed modification time: a file system with coarse time stamps, on
+        which two writes in the same tick are indistinguishable by (mtime, size) - values are small ints of equal length.
+        (files only: a directory's own mtime is what the import system's finder watches, and a real write always moves it)"""
+        if not self.workdir:
+            return
+        for root, dirs, files in os.walk(self.workdir):
+            if '__pycache__' in root:
+                continue
+            for f in files:
+                if f.endswith(('.db', '.db-journal', '.db-wal')):
+                    continue
+                try:
+                    os.utime(os.path.join(root, f), (1700000000, 1700000000))
+                except OSError:
+                    pass
 
     def run(self, ops):
         init = self.snapshot()
@@ -197,6 +215,7 @@ class StoreRecorder(object):
                 e['ret'] = 0
             if not isinstance(e['ret'], int) or isinstance(e['ret'], bool):
                 e['ret'] = -5
+            self.freeze_times()
             e.update(self.snapshot())
             events.append(e)
         return {'cfg': {'nk': NK, 'na': NA}, 'init': init, 'events': events}
